@@ -147,6 +147,35 @@ func init() {
 		Body: onceBody(2, true, true),
 	})
 	eng.Register(&eng.Scenario{
+		Name: "once-wrapped-cancel", Props: []string{"C16"}, MustFinish: true, ObsNames: stdObs,
+		Doc:   "promise.Once whose function fails, under live contexts, with an error that wraps context.Canceled (a sub-operation of its own was cancelled): that is the function's failure like any other - the two concurrent callers get that very error from the attempt they joined (the function is not silently called again on their behalf: at most one call per caller), a later caller starts a new attempt",
+		Quick: eng.Bounds{PB: 2}, Thorough: eng.Bounds{PB: 3},
+		Body: func() {
+			bg := context.Background()
+			wrapped := fmt.Errorf("fetch upstream: %w", context.Canceled)
+			once := promise.NewOnce(func(ctx context.Context) (int, error) {
+				n := int(vsched.CtrAdd(c16Calls, 1))
+				if n > 3 {
+					fail("C16.extra-call", "the function failed with its own error under live caller contexts, but it has been called %d times for 3 callers", n)
+				}
+				vsched.Point()
+				return 0, wrapped
+			})
+			check := func() {
+				label("Once.Resolve")
+				v, err := once.Resolve(bg)
+				label("")
+				if err != wrapped || v != 0 {
+					fail("C16.wrong-error", "Resolve returned (%d,%v), the attempt failed with %v", v, err, wrapped)
+				}
+			}
+			T("A", check)
+			T("B", check)
+			vsched.Settle()
+			check()
+		},
+	})
+	eng.Register(&eng.Scenario{
 		Name: "once-zero", Props: []string{"C16"}, MustFinish: true, ObsNames: stdObs,
 		Doc:   "promise.Once whose function succeeds with the zero value (0, nil) - after an optional first failure (choice): two concurrent callers and two later ones; the function is not called again after the success and everybody gets (0, nil)",
 		Quick: eng.Bounds{PB: 2}, Thorough: eng.Bounds{PB: 3},
